@@ -15,9 +15,9 @@ def run(cmd, **kw):
     return p.returncode, (p.stdout + p.stderr)
 # the patch comes from the seeding worktree; it is re-applied to a FRESH worktree of /repo's current HEAD
 # (fixes committed to /repo since the seed was made must be in the tree the checks run against)
-rc, diff = run(['git', '-C', wt, 'diff'])
-if not diff.strip() and os.path.exists(f'{dst}/patch.diff'):
-    diff = open(f'{dst}/patch.diff').read()
+rc, diff = run(['git', '-C', wt, 'diff']) if os.path.isdir(wt) else (1, '')
+if (rc != 0 or not diff.startswith('diff --git')) and os.path.exists(f'{dst}/patch.diff'):
+    diff = open(f'{dst}/patch.diff').read()          # the seeding worktree is gone: the stored patch is the seed
 open(f'{dst}/patch.diff', 'w').write(diff)
 fresh = f'/tmp/seedrun_{sid}'
 run(['git', '-C', '/repo', 'worktree', 'remove', '--force', fresh])
